@@ -29,6 +29,11 @@ func validateConfig(cfg ElectionConfig) error {
 				cfg.TTL, cfg.HeartbeatInterval, minTTL))
 	}
 
+	if cfg.ValidationInterval < 0 {
+		return NewValidationError("ValidationInterval", cfg.ValidationInterval,
+			"validation interval must not be negative (0 uses the default)")
+	}
+
 	// Check ValidationInterval (if set)
 	if cfg.ValidationInterval > 0 {
 		if cfg.ValidationInterval < cfg.HeartbeatInterval {
@@ -36,6 +41,11 @@ func validateConfig(cfg ElectionConfig) error {
 				fmt.Sprintf("validation interval (%v) should be >= HeartbeatInterval (%v)",
 					cfg.ValidationInterval, cfg.HeartbeatInterval))
 		}
+	}
+
+	if cfg.DisconnectGracePeriod < 0 {
+		return NewValidationError("DisconnectGracePeriod", cfg.DisconnectGracePeriod,
+			"disconnect grace period must not be negative (0 uses the default)")
 	}
 
 	if cfg.DisconnectGracePeriod > 0 {
